@@ -8,7 +8,8 @@
    that both JSON spellings of a reference denote the address written; the later stages themselves
    are compared on the implementation by the paired-rendering oracle (tools/harness/c19.go), not proved. *)
 From Coq Require Import String List Bool Arith.
-From HV Require Import Model.Json Proofs.JsonProofs.
+From HV Require Import Model.Schema Model.Json Proofs.JsonProofs.
+Import ListNotations.
 
 (* decoding the JSON rendering of any configuration expressible under the schema - any nesting depth,
    any number of labels, label-dependent bodies, AnyAttribute bodies - gives exactly the attributes,
@@ -33,3 +34,12 @@ Theorem C19_no_other_origins : forall s t,
   json_ref s = Some t -> trav_ok TStart t = true /\ (s = t \/ s = ("${" ++ t ++ "}")%string).
 Proof. exact json_ref_sound. Qed.
 Print Assumptions C19_no_other_origins.
+
+(* the dynamic-blocks extension: a dynamic block labelled with a block type that may be generated holds one
+   block type, "content", decoded with the body of exactly that block type *)
+Theorem C19_dynamic_content_decoded_with_named_type : forall types t blk v,
+  Model.Schema.alookup t types = Some blk ->
+  inner_schema (dynamic_block types) [t] v =
+  JSch ["for_each"; "iterator"; "labels"]%string false [("content"%string, JBlk 0 (jb_body blk) [])] false.
+Proof. exact dynamic_content_is_the_named_type. Qed.
+Print Assumptions C19_dynamic_content_decoded_with_named_type.
